@@ -163,5 +163,8 @@ print('@@' + json.dumps({'vectors': vec, 'diffs': diffs}))
         return [{'name': 'real serializer round trip on adversarial keys', 'vectors': 0, 'differences': -1,
                  'error': p.stderr.decode()[-400:]}]
     d = json.loads(out[out.index('@@') + 2:])
-    return [{'name': 'real jsonpickle/zlib round trip of adversarial key texts through the 3 real cassettes',
-             'vectors': d['vectors'], 'differences': len(d['diffs']), 'error': str(d['diffs'])[:300]}]
+    out = {'name': 'real jsonpickle/zlib round trip of adversarial key texts and shared sub-objects through the 3 real cassettes',
+           'vectors': d['vectors'], 'differences': len(d['diffs']), 'error': str(d['diffs'])[:300]}
+    if d['diffs']:
+        out['violation'] = {'cassette_and_key': d['diffs'][:3]}      # a failing real round trip IS a C07 counterexample
+    return [out]
